@@ -254,13 +254,31 @@ def retainImports (mt : Str → Str → Bool) (o : ScanOptions) (pre : Str) (imp
     imports.filter fun i => isInternal i.importee pre || !(extExcluded i.importee || i.importeeParents.any extExcluded)
   else imports.filter fun i => isInternal i.importee pre
 
-/-- `_append_external_modules_to_module_list` -/
-def moduleList (mt : Str → Str → Bool) (base : Str) (o : ScanOptions) (pre : Str) (parsedModules : List Str)
+/-- `_append_external_modules_to_module_list` as it was BEFORE the repair of F-C10e (library commit 4ee40c9):
+    `ImporteeModuleCalculator.calculate_importee_modules` skipped every importee whose dotted name contains
+    `str(root_path)` (= `base`) as a substring. Kept verbatim for the before/after theorems in `Props/C10.lean`;
+    not used by `generateGraph`. -/
+def moduleListBeforeRepair (mt : Str → Str → Bool) (base : Str) (o : ScanOptions) (pre : Str) (parsedModules : List Str)
     (imports : List ImportRec) : List Str :=
   if o.excludeExternal then parsedModules
   else
     let ext := imports.filter fun i => !isInternal i.importee pre
     let added := ext.flatMap fun i => if isInfix base i.importee then [] else i.importee :: i.importeeParents
+    let all := dedup (parsedModules ++ added)
+    if o.externalExclusions.isEmpty then all
+    else all.filter fun m => parsedModules.contains m || !isExcluded mt o.externalExclusions m
+
+set_option linter.unusedVariables false in
+/-- `_append_external_modules_to_module_list` (after the repair of F-C10e, library commit 4ee40c9):
+    `ImporteeModuleCalculator.calculate_importee_modules` adds the importee and its parent modules of EVERY
+    external import; the substring test against `str(root_path)` is gone. The parameter `base` stays in the
+    signature (the call sites pass it) but is unused. -/
+def moduleList (mt : Str → Str → Bool) (base : Str) (o : ScanOptions) (pre : Str) (parsedModules : List Str)
+    (imports : List ImportRec) : List Str :=
+  if o.excludeExternal then parsedModules
+  else
+    let ext := imports.filter fun i => !isInternal i.importee pre
+    let added := ext.flatMap fun i => i.importee :: i.importeeParents
     let all := dedup (parsedModules ++ added)
     if o.externalExclusions.isEmpty then all
     else all.filter fun m => parsedModules.contains m || !isExcluded mt o.externalExclusions m
